@@ -22,7 +22,7 @@ LIMIT_SCRIPT = 6.0
 LOOP_FUNCS = ("presolvePresolvables", "resolveMoots", "clone", "traceOutline", "traceHuman", "findBottom",
               "resolveOverLinks", "traceHead", "traceHeadHuman")
 
-POOL = fb.RESERVED + ["1j", "inf", "nan", "-1", "0", "0.5", "1e400", "x", "me", "main", "framer", "frame", "actor", "root",
+POOL = fb.RESERVED + ["1j", "inf", "nan", "-1", "0", "0.5", "1e400", "7" * 420, "-0x" + "f" * 300, "x", "me", "main", "framer", "frame", "actor", "root",
                       "all", "any", "aux", "done", "updated", "changed", "next", "value", "elapsed", "recurred", "goal",
                       '"q s"', "a.b", ".a.b", "a..b", ".", "stop", "start", "active", "moot", "slave", "front", "enter",
                       "first", "goto", "print", "put", "set", "inc", "do", "bid", "go", "let", "house", "init", "copy",
@@ -30,11 +30,12 @@ POOL = fb.RESERVED + ["1j", "inf", "nan", "-1", "0", "0.5", "1e400", "x", "me", 
                       "keep", "flush", "rx", "tx", "a:b:c", ":x", "over", "under", "native", "", "#"]
 
 
-def outcome(text, limit, files=None, verbosity=0):
+def outcome(text, limit, files=None, verbosity=0, args=None):
     """(class, function, detail) of building `text` (with the files it loads, at a console verbosity):
     class = ok | failed | <exception class> | HANG;  function = where it was raised (innermost ioflo frame)"""
     try:
-        r = fb.build(text, limit=limit, acts=False, files=files, verbosity=verbosity, name="main.flo" if files else "build.flo")
+        r = fb.build(text, limit=limit, acts=False, files=files, verbosity=verbosity, args=args,
+                     name="main.flo" if files else "build.flo")
     except core.HarnessTimeout as ex:
         tb = traceback.extract_tb(ex.__traceback__)
         names = [f.name for f in tb if "ioflo" in f.filename]
@@ -380,7 +381,8 @@ class CHECK(core.Check):
             "script cases are split over up to ~6 files by `load` commands (nested three deep), so that every kind of script "
             "error also occurs inside a loaded file; some of these add a nested load of a missing file, a file that loads "
             "itself, or two files loading each other. 25% of the script cases are built at console verbosity concise or "
-            "profuse (output discarded) so that the printing code of build() runs. Non-trivial = a script that is rejected or does not build normally "
+            "profuse (output discarded) so that the printing code of build() runs; 5% pass optional arguments (metas, preloads, "
+            "mode, behaviors) to Builder.build. Non-trivial = a script that is rejected or does not build normally "
             "(any outcome other than 'ok'), or a link structure with at least one link; distinct by text.")
     TRUSTED = ["correspondence (a): the scripts really exercise the loops the model describes (frames resolved in definition "
                "order; `under` sets the primary under; a clone has the moots of its original)",
@@ -519,6 +521,8 @@ class CHECK(core.Check):
                         "files": {n: fb.canonical_text(p) for n, p in files.items()}}
             if rng.random() < 0.25:
                 case["verbosity"] = rng.choice([2, 2, 4])    # the printing code of build() runs too (output discarded)
+            if rng.random() < 0.05:
+                case["args"] = rng.choice(["metas", "preloads", "mode", "behaviors", "all"])   # Builder.build(metas=…, …)
             yield case
 
     def text_of(self, case):
@@ -536,7 +540,7 @@ class CHECK(core.Check):
             if len(self._cache) > 50000:
                 self._cache.clear()
             self._cache[key] = outcome(self.text_of(case), LIMIT_SCRIPT if case["kind"] == "script" else LIMIT_LOOP,
-                                       files=case.get("files"), verbosity=case.get("verbosity", 0))
+                                       files=case.get("files"), verbosity=case.get("verbosity", 0), args=case.get("args"))
         return self._cache[key]
 
     def requests(self, case):
@@ -604,6 +608,8 @@ class CHECK(core.Check):
             return
         if case.get("verbosity"):
             yield {k: v for k, v in case.items() if k != "verbosity"}
+        if case.get("args"):
+            yield {k: v for k, v in case.items() if k != "args"}
         for n, t in sorted((case.get("files") or {}).items()):
             fl = t.split("\n")
             for i in range(len(fl)):
